@@ -89,9 +89,16 @@ def joined_on_second_pass(det):
     return _squash(first) == _squash(second) and first.count("\n") > second.count("\n")
 
 
+GLUED_SPECS = re.compile(r"^\s*for [^\n]*?[A-Za-z0-9_](?:if|for) |^\s*for [^\n]*(?://|#)[^\n]*\b(?:if|for) ", re.M)
+
+
 def features(core, det=None):
     """what the minimal failing program contains (decided on the reduced text)"""
     f = []
+    if isinstance(det, dict) and GLUED_SPECS.search(det.get("first") or ""):
+        # the specs of an object comprehension are printed without a separator (known finding of C19): `for k in xsif k`,
+        # or a line comment after one spec swallowing the next
+        return "object-comprehension-specs-glued"
     if re.search(r"(//|#)[^\n]*\n?[\s,]*[)\]}]", core):
         f.append("line-comment-before-closing-bracket")
     if re.search(r"[(\[{]\s*(/\*|//|#)", core):
@@ -232,8 +239,10 @@ def shard(idx, n, tier, seed, builds, cli):
                         f.write(p.stdout)
                     q = subprocess.run([cli["jrsonnet-fmt"]] + flags + ["--test", out], capture_output=True, text=True, timeout=60)
                     if q.returncode != 0:
-                        acc.violation({"oracle": "cli-test-rejects-own-output", "flags": " ".join(flags)},
-                                      {"text": t, "printed": p.stdout, "rc": q.returncode, "stderr": q.stderr[-300:]})
+                        sig = {"oracle": "cli-test-rejects-own-output", "flags": " ".join(flags)}
+                        if GLUED_SPECS.search(p.stdout):
+                            sig = {"oracle": "rejects-own-output", "features": "object-comprehension-specs-glued"}
+                        acc.violation(sig, {"text": t, "printed": p.stdout, "rc": q.returncode, "stderr": q.stderr[-300:]})
                     else:
                         acc.inc("cli_test_accepts")
     acc.sample({"text": "local a = 1 ; a", "indent": 2})
